@@ -47,18 +47,19 @@ __CPROVER_requires(0 <= begin && begin <= end && end <= 4611686018427387904 && n
 __CPROVER_requires(nv_exp_feature == NV_IDX(features->id, begin + nv_k) && nv_exp_tnum == tnum && nv_exp_samples == samples->id && nv_exp_kind == kind) \
 __CPROVER_assigns(nv_cb_calls, nv_elem, nv_thrown) \
 __CPROVER_ensures(nv_cb_calls == end - begin)
-#define NV_FS_TASK_LOOP(kind) \
+/* the loop counter is named through NV_LOOPVAR_<fn>_1 (found by its role): a renamed counter does not break the invariant */
+#define NV_FS_TASK_LOOP(kind, index) \
 __CPROVER_assigns(index, nv_cb_calls, nv_elem, nv_thrown) \
 __CPROVER_loop_invariant(begin <= index && index <= end && nv_cb_calls == index - begin) \
 __CPROVER_decreases(end - index)
 #define NV_CONTRACT_fsel_task_sclass NV_FS_TASK(NV_K_SCLASS)
-#define NV_LOOP_fsel_task_sclass_1 NV_FS_TASK_LOOP(NV_K_SCLASS)
+#define NV_LOOP_fsel_task_sclass_1 NV_FS_TASK_LOOP(NV_K_SCLASS, NV_LOOPVAR_fsel_task_sclass_1)
 #define NV_CONTRACT_fsel_task_mclass NV_FS_TASK(NV_K_MCLASS)
-#define NV_LOOP_fsel_task_mclass_1 NV_FS_TASK_LOOP(NV_K_MCLASS)
+#define NV_LOOP_fsel_task_mclass_1 NV_FS_TASK_LOOP(NV_K_MCLASS, NV_LOOPVAR_fsel_task_mclass_1)
 #define NV_CONTRACT_fsel_task_scalar NV_FS_TASK(NV_K_SCALAR)
-#define NV_LOOP_fsel_task_scalar_1 NV_FS_TASK_LOOP(NV_K_SCALAR)
+#define NV_LOOP_fsel_task_scalar_1 NV_FS_TASK_LOOP(NV_K_SCALAR, NV_LOOPVAR_fsel_task_scalar_1)
 #define NV_CONTRACT_fsel_task_struct NV_FS_TASK(NV_K_STRUCT)
-#define NV_LOOP_fsel_task_struct_1 NV_FS_TASK_LOOP(NV_K_STRUCT)
+#define NV_LOOP_fsel_task_struct_1 NV_FS_TASK_LOOP(NV_K_STRUCT, NV_LOOPVAR_fsel_task_struct_1)
 
 /* loop(samples, ifeature, op): exactly one invocation, for that feature, tnum 0, values select(samples, ifeature, m_buffers[0].m_<kind>) */
 #define NV_FS_ONE(kind) \
